@@ -335,6 +335,12 @@ example : Spec.Uri.splitPath [97, 47, 46, 47, 37, 50, 101, 37, 50, 69, 47, 98, 3
 -- "a&b%26c" : 7 + 2·2 + 1
 example : Spec.Uri.splitQuery [97, 38, 98, 37, 50, 54, 99] = some [[97], [98, 38, 99]] ∧
     MU.splitQuery [97, 38, 98, 37, 50, 54, 99] 12 = R.ok [[97], [98, 38, 99]] := by decide
+-- D16b's wording, 17 + 3·5 bytes; and the hypotheses of `split_buf_documented_bound` / `split_buf_omits_only` on the same path
+example : MU.splitPath [97, 47, 46, 47, 37, 50, 101, 37, 50, 69, 47, 98, 37, 52, 49, 99, 47] 32 = R.ok [[98, 65, 99], []] ∧
+    decodeAll (rawSegs pathStop pathSep [97, 47, 46, 47, 37, 50, 101, 37, 50, 69, 47, 98, 37, 52, 49, 99, 47]) = some [[97], [46], [46, 46], [98, 65, 99], []] ∧
+    usedBy [[97], [46], [46, 46], [98, 65, 99], []] = 12 ∧
+    MU.splitPath [97, 47, 46, 47, 37, 50, 101, 37, 50, 69, 47, 98, 37, 52, 49, 99, 47] 12 = R.ok [[98, 65, 99], []] ∧      -- the sharp bound: room for all decoded segments
+    MU.splitPath [97, 47, 46, 47, 37, 50, 101, 37, 50, 69, 47, 98, 37, 52, 49, 99, 47] 3 = R.ok [[]] := by decide          -- below it: "bAc" (4 bytes) does not fit into 3, "" does
 -- below the minimum what does not fit is silently omitted (D16b): "aaa/bbbbb/c" in 7 bytes gives "aaa", "c"
 example : MU.splitPath [97, 97, 97, 47, 98, 98, 98, 98, 98, 47, 99] 7 = R.ok [[97, 97, 97], [99]] := by decide
 
@@ -434,6 +440,12 @@ example : (Spec.Uri.splitUri Generated.Uri.schemes false [99, 111, 97, 112, 115,
 -- "coap://[fe80::1%25eth0]/" sent to fe80::1: the zone identifier does not count, no option at all
 example : (Spec.Uri.splitUri Generated.Uri.schemes false [99, 111, 97, 112, 58, 47, 47, 91, 102, 101, 56, 48, 58, 58, 49, 37, 50, 53, 101, 116, 104, 48, 93, 47]).bind (uriOptions Generated.Uri.schemes [102, 101, 56, 48, 58, 58, 49]) =
     some [] := by decide
+
+-- the hypotheses of `uri_options_defined` on "coap://a%41b:0005683/%2e?": host "a%41b" is emitted and decodes ("aab")
+example : ∃ p, Spec.Uri.splitUri Generated.Uri.schemes false [99, 111, 97, 112, 58, 47, 47, 97, 37, 52, 49, 98, 58, 48, 48, 48, 53, 54, 56, 51, 47, 37, 50, 101, 63] = some p ∧
+    unixHost p.host = false ∧ Spec.Uri.escapesOk p.host = true ∧
+    uriOptions Generated.Uri.schemes [49, 57, 50, 46, 48, 46, 50, 46, 49] p = some [(3, [97, 97, 98])] :=
+  ⟨⟨0, [97, 37, 52, 49, 98], 5683, [37, 50, 101], []⟩, by decide⟩
 
 /-- (P2, "reads only the bytes of the length-delimited input", the URI level) for **every** byte string — Unix-socket
 authorities (D16f) and malformed hosts included — and every parsed URI, coap_split_uri / coap_split_proxy_uri and
